@@ -131,7 +131,11 @@ func (vc *VC) execStmt(s *State, st ast.Stmt, label string) {
 		}
 		s.ghost[deferFlag(x)] = True
 	case *ast.GoStmt:
-		vc.unsupported(st, "go statement")
+		vc.execGo(s, x)
+	case *ast.SendStmt:
+		vc.execSend(s, x)
+	case *ast.SelectStmt:
+		vc.execSelect(s, x, label)
 	default:
 		vc.unsupported(st, fmt.Sprintf("statement %T", st))
 	}
@@ -141,6 +145,10 @@ func (vc *VC) declVar(s *State, o *types.Var, v *Term) {
 	if vc.boxed[o] {
 		ref := vc.allocRef(s, o.Name(), typeID(o.Type()))
 		s.env[o] = ref
+		if typeKey(o.Type()) == "sync.WaitGroup" {
+			vc.ghostSet(s, "wgadd", ref, IntLit(0))
+			vc.ghostSet(s, "wgdone", ref, IntLit(0))
+		}
 		vc.storePtr(s, o.Type(), ref, v)
 		return
 	}
@@ -287,6 +295,9 @@ func (vc *VC) join(s *State, states ...*State) {
 }
 
 func (vc *VC) execReturn(s *State, x *ast.ReturnStmt) {
+	if len(vc.frames) == 1 {
+		vc.siteClausesOpt(s, "return", x)
+	}
 	fr := vc.frame()
 	n := fr.sig.Results().Len()
 	var vals []*Term
@@ -517,6 +528,17 @@ func (vc *VC) execTypeSwitch(s *State, x *ast.TypeSwitchStmt, label string) {
 
 // siteClauses applies "site <key> assert e" (obligation) and "site <key> assume-known-finding ID: e" (restriction)
 // clauses of the function under verification at a statement.
+// siteClausesOpt: like siteClauses but for keys that match many statements (every return / go).
+func (vc *VC) siteClausesOpt(s *State, key string, st ast.Stmt) {
+	if vc.fn.Spec == nil {
+		return
+	}
+	if len(vc.fn.Spec.Asserts[key]) == 0 && len(vc.fn.Spec.SiteKFs[key]) == 0 {
+		return
+	}
+	vc.siteClauses(s, key, st)
+}
+
 func (vc *VC) siteClauses(s *State, key string, st ast.Stmt) {
 	if len(vc.frames) != 1 || vc.fn.Spec == nil {
 		return
